@@ -77,6 +77,7 @@ static prog_t scripts[32];
 static int n_workers = 2, pswitch = 30, rpoint = 1, msnap = 0;
 static int snapmax = 1000, snapmax_set = 0;   /* case option `snapmax K`: at most K entries of a sleep stack are listed */
 static long maxsteps = 200000, clock_step = 1000;
+static int clocklog = 0;   /* case option `clocklog 1` (C20): clock readings are scheduling points and logged (see ctl_clock) */
 static uint64_t seed = 1;
 static int dflt_parent_first = 0;
 /* targeted preemption (case option `hold <point-id> <moves> [<percent>]`): a participant arriving at that
@@ -383,10 +384,30 @@ static void ctl_cb(int kind, const char * id, const void * obj, long val) {
   strncpy(last_id[w], id, 31); last_obj[w] = obj;
 }
 
-static int ctl_clock(struct timespec * ts) {
+/* the virtual clock: reading number r (counted over all readers) shows 1 s + r * clockstep ns */
+static long ctl_clock_raw(struct timespec * ts) {
   long r = __sync_fetch_and_add(&vclock_reads, 1);
   long ns = 1000000000L + r * clock_step;
   ts->tv_sec = ns / 1000000000L; ts->tv_nsec = ns % 1000000000L;
+  return ns;
+}
+/* the hook behind hr_gettime.  Case option `clocklog 1` (C20; default 0 = no scheduling point, no line): every clock
+   reading of the library is a scheduling point of the controller and an event
+     E <step> w<W> t<T> clock.read - <ns>
+   Switch first, then read and log: the value is the one the library gets, and another participant can be
+   scheduled between the reading and whatever the reader does next (its lock / join attempt). */
+static int ctl_clock(struct timespec * ts) {
+  int w = (clocklog && ctl_on) ? my_rank() : -1;
+  if (w >= 0 && w < n_workers) {
+    char b[16];
+    maybe_switch(w);
+    long ns = ctl_clock_raw(ts);
+    step_no++; moves++;
+    fprintf(tr, "E %ld w%d %s clock.read - %ld\n", step_no, w, aname(w, b), ns);
+    machine_snapshot();
+    return 0;
+  }
+  ctl_clock_raw(ts);
   return 0;
 }
 
@@ -472,6 +493,20 @@ static int has(op_t * o, const char * flag) {
   return 0;
 }
 
+/* deadline of a timed op `<op> <x> <ns> [abs]`: now + <ns> (one reading of the virtual clock by the interpreter itself,
+   never a scheduling point, never logged as clock.read), or the absolute time <ns> with the flag `abs` (no reading).
+   Under `clocklog 1` the deadline handed to the library is logged:  E <step> w<W> t<T> clock.deadline - <ns> */
+static void mk_deadline(int T, op_t * o, struct timespec * ts) {
+  long d = num(o->w[2]);
+  if (has(o, "abs")) { ts->tv_sec = d / 1000000000L; ts->tv_nsec = d % 1000000000L; }
+  else { ctl_clock_raw(ts); long ns = ts->tv_nsec + d; ts->tv_sec += ns / 1000000000L; ts->tv_nsec = ns % 1000000000L; }
+  if (clocklog && ctl_on) {
+    int w = my_rank(); step_no++;
+    fprintf(tr, "E %ld w%d t%d clock.deadline - %ld\n", step_no, w, T, (long)ts->tv_sec * 1000000000L + ts->tv_nsec);
+    machine_snapshot();
+  }
+}
+
 static void run_ops(int T, prog_t * p, void ** exit_val) {
   char ex[96];
   for (int pc = 0; pc < p->n; pc++) {
@@ -499,8 +534,7 @@ static void run_ops(int T, prog_t * p, void ** exit_val) {
     } else if (!strcmp(op, "tryjoin")) {
       void * v = 0; r = myth_tryjoin(thr_ptr[num(o->w[1])], &v); sprintf(ex, "val=%ld", (long)v);
     } else if (!strcmp(op, "timedjoin")) {
-      void * v = 0; struct timespec ts; ctl_clock(&ts);
-      long ns = ts.tv_nsec + num(o->w[2]); ts.tv_sec += ns / 1000000000L; ts.tv_nsec = ns % 1000000000L;
+      void * v = 0; struct timespec ts; mk_deadline(T, o, &ts);
       r = myth_timedjoin(thr_ptr[num(o->w[1])], &v, &ts); sprintf(ex, "val=%ld", (long)v);
     } else if (!strcmp(op, "tryjoinw") || !strcmp(op, "timedjoinw")) {
       /* tryjoinw T : repeat { tryjoin T } until it returns 0, yielding in between;
@@ -512,8 +546,7 @@ static void run_ops(int T, prog_t * p, void ** exit_val) {
         ev_call(T, &w1);
         void * v = 0; int rr; char e2[32];
         if (timed) {
-          struct timespec ts; ctl_clock(&ts);
-          long ns = ts.tv_nsec + num(o->w[2]); ts.tv_sec += ns / 1000000000L; ts.tv_nsec = ns % 1000000000L;
+          struct timespec ts; mk_deadline(T, o, &ts);
           rr = myth_timedjoin(thr_ptr[num(o->w[1])], &v, &ts);
         } else rr = myth_tryjoin(thr_ptr[num(o->w[1])], &v);
         sprintf(e2, "val=%ld", (long)v);
@@ -522,6 +555,19 @@ static void run_ops(int T, prog_t * p, void ** exit_val) {
         if (!timed) myth_yield();
       }
       sprintf(ex, "attempts=%ld", attempts);
+    } else if (!strcmp(op, "timedjoinj")) {
+      /* timedjoinj T ns [abs] : one timedjoin; if it did not return 0, a blocking join.  Each is logged as its own call (C20) */
+      op_t w1; memset(&w1, 0, sizeof(w1)); w1.n = 3; strcpy(w1.w[0], "timedjoin"); strcpy(w1.w[1], o->w[1]); strcpy(w1.w[2], o->w[2]);
+      if (has(o, "abs")) { w1.n = 4; strcpy(w1.w[3], "abs"); }
+      ev_call(T, &w1);
+      void * v = 0; struct timespec ts; char e2[32]; mk_deadline(T, o, &ts);
+      int rr = myth_timedjoin(thr_ptr[num(o->w[1])], &v, &ts);
+      sprintf(e2, "val=%ld", (long)v); ev_ret(T, rr, e2);
+      if (rr != 0) {
+        w1.n = 2; strcpy(w1.w[0], "join"); ev_call(T, &w1);
+        rr = myth_join(thr_ptr[num(o->w[1])], &v); sprintf(e2, "val=%ld", (long)v); ev_ret(T, rr, e2);
+      }
+      r = rr;
     } else if (!strcmp(op, "detach")) {
       r = myth_detach(thr_ptr[num(o->w[1])]);
     } else if (!strcmp(op, "exit")) {
@@ -541,8 +587,7 @@ static void run_ops(int T, prog_t * p, void ** exit_val) {
       held[T][m - objs] = (r == 0);
       if (r == 0) sprintf(ex, "occ=%ld", __sync_add_and_fetch(&m->occ, 1));
     } else if (!strcmp(op, "timedlock")) {
-      obj_t * m = obj_named(o->w[1]); struct timespec ts; ctl_clock(&ts);
-      long ns = ts.tv_nsec + num(o->w[2]); ts.tv_sec += ns / 1000000000L; ts.tv_nsec = ns % 1000000000L;
+      obj_t * m = obj_named(o->w[1]); struct timespec ts; mk_deadline(T, o, &ts);
       r = myth_mutex_timedlock(&m->u.m, &ts);
       held[T][m - objs] = (r == 0);
       if (r == 0) sprintf(ex, "occ=%ld", __sync_add_and_fetch(&m->occ, 1));
@@ -616,8 +661,21 @@ static void run_ops(int T, prog_t * p, void ** exit_val) {
       x->u.v = v + num(o->w[2]); r = x->u.v;
     } else if (!strcmp(op, "get")) {
       r = obj_named(o->w[1])->u.v;
+    } else if (!strcmp(op, "poppass")) {
+      /* poppass V: the work-stealing API from a user thread - pop the newest entry of the own run queue and
+         hand it to worker (V mod workers) with myth_wsapi_runqueue_pass.  Each of the two calls is one step
+         (logged before it is made, so that the snapshot on the line is the state it acts on). */
+      char b[16]; int v = (int)(num(o->w[1]) % n_workers);
+      { int w = my_rank(); maybe_switch(w); step_no++; moves++; fprintf(tr, "E %ld w%d t%d ws.pop\n", step_no, w, T); machine_snapshot(); }
+      myth_thread_t h = myth_wsapi_runqueue_pop();
+      { int w = my_rank(); maybe_switch(w); step_no++; moves++; fprintf(tr, "E %ld w%d t%d ws.pass %d %s\n", step_no, w, T, v, h ? tname(h, b) : "-"); machine_snapshot(); }
+      if (h) {
+        r = myth_wsapi_runqueue_pass(v, h);
+        if (!r) { fprintf(stderr, "lib_interp: myth_wsapi_runqueue_pass refused\n"); myth_wsapi_runqueue_push(h); }
+      }
     } else if (!strcmp(op, "sleep")) {
       struct timespec ts = { num(o->w[1]) / 1000000000L, num(o->w[1]) % 1000000000L };
+      if (o->n > 2) { ts.tv_sec = num(o->w[1]); ts.tv_nsec = num(o->w[2]); }   /* sleep <sec> <nsec>: the raw fields (malformed durations, C20) */
       r = myth_nanosleep(&ts, 0);
     } else if (!strcmp(op, "keycreate")) {
       obj_t * k = obj_named(o->w[1]); r = myth_key_create(&k->u.k, 0); sprintf(ex, "key=%d", (int)k->u.k);
@@ -669,6 +727,7 @@ static void load_case(const char * path) {
     else if (!strcmp(k, "snapmax")) { snapmax = atoi(rest); snapmax_set = 1; }
     else if (!strcmp(k, "maxsteps")) maxsteps = atol(rest);
     else if (!strcmp(k, "clockstep")) clock_step = atol(rest);
+    else if (!strcmp(k, "clocklog")) clocklog = atoi(rest);
     else if (!strcmp(k, "parentfirst")) dflt_parent_first = atoi(rest);
     else if (!strcmp(k, "obj")) {
       obj_t * o = &objs[n_objs]; char kn[24]; long p1 = 0, p2 = 0;
